@@ -95,6 +95,56 @@ def check_rebuild(chk, prog, model, prop_note=""):
         chk.missing(R, "uf-size before/after equality idiom (no function uses it any more: table update needed)")
 
 
+def check_uf_table(chk, prog):
+    R = chk.rule("R-UF-TABLE", "the union-find table records exactly one row per effective union: DisplacedTable::insert_impl pushes (child, ts) onto `displaced` and indexes it under the child on "
+                 "every path that called UnionFind::union, with child = the displaced id returned by union; Table::len is displaced.len() — R-REBUILD's `size unchanged => no new union` rests on this")
+    DT = "egglog_core_relations::uf::DisplacedTable"
+    f = prog.need(DT + "::insert_impl")
+    un = f.calls_to("egglog_union_find::UnionFind::union")
+    push = [c for c in f.calls if c.p == "alloc::vec::Vec::push" and any(a[0] == "param" and a[1] == 1 and a[2][:1] == ("displaced",) for a in f.origins(c.args[0]))]
+    ins = [c for c in f.calls if c.p.endswith("HashMap::insert") and any(a[0] == "param" and a[1] == 1 and a[2][:1] == ("lookup_table",) for a in f.origins(c.args[0]))]
+    ok = bool(un) and bool(push) and bool(ins)
+    why = "union / displaced.push / lookup_table.insert not all present"
+    if ok:
+        for c in push + ins:
+            pass
+        p1 = rc.RebuildModel._path_to_ret(f, [c.target for c in un], {c.bb for c in push}, set())
+        p2 = rc.RebuildModel._path_to_ret(f, [c.target for c in un], {c.bb for c in ins}, set())
+        if p1 is not None or p2 is not None:
+            ok = False
+            why = "a union can be performed without recording the displaced id (the table does not grow, the engine skips the rebuild)"
+        # what is recorded: the child (field 1 of union's result)
+        for c in push:
+            at = f.origins(c.args[1])
+            good = False
+            for a in at:
+                if a[0] == "agg" and a[1] == "tuple":
+                    st = f.stmt(a[4], a[5])
+                    ca = f.origins(st[2][4][0])
+                    if ca and all(x[0] == "call" and x[1].endswith("UnionFind::union") and x[3] == ("1",) for x in ca):
+                        good = True
+            if not good:
+                ok = False
+                why = "the recorded displaced id is not the child returned by UnionFind::union"
+        for c in ins:
+            ka = f.origins(c.args[1])
+            if not (ka and all(x[0] == "call" and x[1].endswith("UnionFind::union") and x[3] == ("1",) for x in ka)):
+                ok = False
+                why = "lookup_table is not keyed by the displaced child id"
+    chk.judge(ok, R, DT + "::insert_impl", "every effective union records (child, ts) and indexes it under the child", why, f.loc)
+    ln = prog.fns.get(f"<{DT} as egglog_core_relations::table_spec::Table>::len")
+    if ln is None:
+        chk.missing(R, "Table::len for DisplacedTable")
+    else:
+        ra = ln.origins([0, []])
+        okl = bool(ra) and all(a[0] == "call" and a[1] == "alloc::vec::Vec::len" for a in ra)
+        if okl:
+            for a in ra:
+                c = ln.call_at(a[2])
+                okl = okl and any(x[0] == "param" and x[2][:1] == ("displaced",) for x in ln.origins(c.args[0]))
+        chk.judge(okl, R, DT + "::len", "len() = displaced.len()", "the union-find table's len() no longer counts the recorded unions", ln.loc)
+
+
 def run(chk, prog, tier):
     chk.explanation = EXPLANATION
     chk.assumptions = [
@@ -112,3 +162,4 @@ def run(chk, prog, tier):
     mc.check_uf_union(chk, prog, R)
     from . import extent_common
     extent_common.check_scan_extent(chk, prog)
+    check_uf_table(chk, prog)
